@@ -3,7 +3,7 @@
    mz m t is the value of counter t; the cache is created with metrics enabled. *)
 From stdpp Require Import gmap.
 From Ristretto Require Import Base.Word Cache.Policy Cache.PolicyProofs Cache.Store Cache.Machine Cache.MachineProofs
-  Cache.SyncProofs Cache.MetricsProofs Sketch.TinyLFU Cache.Ring Cache.RingProofs.
+  Cache.SyncProofs Cache.MetricsProofs Sketch.TinyLFU Cache.Ring Cache.RingProofs Cache.MetricStripes.
 From Coq Require Import Permutation.
 Local Open Scope Z_scope.
 
@@ -146,6 +146,28 @@ Example C17_ring_nonvacuous :
   (r_kept r, r_dropped r, r_recv r, r_ch r, r_dropl r, r_stripes r) = (2, 2, [[5; 7]], [], [6; 8], [[9]; []])%N.
 Proof. vm_compute. reflexivity. Qed.
 
+(* ---- The striped counters written out (Cache/MetricStripes.v: Metrics.add picks slot (hash % 25) * 10 of 256 and
+   adds with wrap-around, Metrics.get sums the 256 slots with wrap-around).  The machine's metrics (Policy.v: m_add)
+   are one uint64 per counter; these theorems are the refinement: for any hashes whatsoever, add never indexes out of
+   range and get reads the wrapped sum of the deltas. ---- *)
+Theorem C17_stripes_one_add : forall s hash delta, length s = ms_slots ->
+  exists s', ms_add s hash delta = Some s' /\ length s' = ms_slots /\ ms_get s' = add64 (ms_get s) delta.
+Proof.
+  intros s hash delta Hl. destruct (ms_add_total s hash delta Hl) as (s' & H & Hl').
+  exists s'. repeat split; auto. exact (ms_get_add _ _ _ _ H).
+Qed.
+
+Theorem C17_stripes_sum : forall adds,
+  exists s', ms_run ms_new adds = Some s' /\ ms_get s' = u64 (sumN (List.map snd adds)).
+Proof.
+  intros adds. destruct (ms_run_spec adds ms_new ms_new_len) as (s' & H & _ & Hg).
+  exists s'. split; [exact H|]. rewrite Hg, ms_new_get. reflexivity.
+Qed.
+
+Example C17_stripes_nonvacuous :
+  option_map ms_get (ms_run ms_new [(24, 18446744073709551615); (49, 3); (7, 5)]%N) = Some 7%N.
+Proof. vm_compute. reflexivity. Qed.
+
 Print Assumptions C17_hits_misses.
 Print Assumptions C17_keys.
 Print Assumptions C17_cost.
@@ -156,3 +178,5 @@ Print Assumptions C17_ring_exact.
 Print Assumptions C17_ring_batches.
 Print Assumptions C17_ring_no_invented_access.
 Print Assumptions C17_ring_refines_LGets.
+Print Assumptions C17_stripes_one_add.
+Print Assumptions C17_stripes_sum.
